@@ -126,3 +126,171 @@ def cow_check(repo, tier, seed):
     return {'name': 'pyvc-own(copy-before-write)', 'obligations': obligations, 'discharged': discharged,
             'violations': violations, 'functions': funcs, 'undecided': undecided,
             'coverage': {'functions': len(funcs), 'write_sites': obligations}}
+
+
+# ------------------------------------------------------------------------------------------------------------
+def cache_key_check(repo, tier, seed):
+    """C17 (reduced): the cache key determines the result of the miss branch.  Data-flow obligations on the real
+    AST of asn1tools/compiler.py::_compile_files_cache and compile_files:
+      key-covers(p)      every parameter the miss branch passes to parse_files/compile_dict flows into `key`
+      raw-contents       the file part of the key is exactly the bytes read from the file opened 'rb' (no transformation)
+      injective-framing  every variable-length part appended to the key is preceded by its own length; the first part
+                         (codec name) ranges over a prefix-free finite set read from the dispatch table
+      same-arguments     the miss branch and compile_files use the parameters unmodified (no reordering / rewriting
+                         between computing the key and compiling)
+    """
+    import ast
+    from .program import Program
+    prog = Program(repo)
+    m = prog.module_by_relpath('asn1tools/compiler.py')
+    obligations = []
+
+    def ob(name, ok, why):
+        obligations.append((name, ok, why))
+
+    f = m.functions.get('_compile_files_cache')
+    g = m.functions.get('compile_files')
+    if f is None or g is None:
+        return {'name': 'cache-key', 'obligations': 0, 'discharged': 0, 'violations': [], 'functions': [],
+                'undecided': [{'function': 'asn1tools/compiler.py::_compile_files_cache', 'kind': 'shape', 'reason': 'function not found'}],
+                'coverage': {}}
+    params = [a.arg for a in f.node.args.args]
+    # --- taint of `key`
+    taint = {'key': set()}
+    var_src = {}           # local name -> set of params it depends on
+    read_names = {}        # local name -> ast expr it was assigned from (for raw-contents)
+
+    def deps(e):
+        out = set()
+        for n in ast.walk(e):
+            if isinstance(n, ast.Name):
+                if n.id in params:
+                    out.add(n.id)
+                out |= var_src.get(n.id, set())
+        return out
+
+    appended = []          # (expr, lineno) in order
+    file_handles = {}      # handle name -> (filename expr, mode)
+    reassigned = {}
+    for node in ast.walk(f.node):
+        if isinstance(node, ast.With):
+            for it in node.items:
+                c = it.context_expr
+                if isinstance(c, ast.Call) and isinstance(c.func, ast.Name) and c.func.id == 'open' and it.optional_vars is not None:
+                    mode = c.args[1].value if len(c.args) > 1 and isinstance(c.args[1], ast.Constant) else None
+                    file_handles[it.optional_vars.id] = (c.args[0], mode)
+                    var_src[it.optional_vars.id] = deps(c.args[0])
+    for _ in range(4):
+        for hname, (fexpr, _mode) in file_handles.items():
+            var_src[hname] = var_src.get(hname, set()) | deps(fexpr)
+        for node in ast.walk(f.node):
+            if isinstance(node, ast.For) and isinstance(node.target, ast.Name):
+                var_src[node.target.id] = var_src.get(node.target.id, set()) | deps(node.iter)
+            if isinstance(node, ast.Assign) and isinstance(node.targets[0], ast.Name):
+                nm = node.targets[0].id
+                var_src[nm] = var_src.get(nm, set()) | deps(node.value)
+                read_names[nm] = node.value
+                if nm in params:
+                    reassigned.setdefault(nm, []).append(node.value)
+    for node in sorted([n for n in ast.walk(f.node) if isinstance(n, (ast.Assign, ast.Expr))], key=lambda n: n.lineno):
+        if isinstance(node, ast.Assign) and isinstance(node.targets[0], ast.Name) and node.targets[0].id == 'key' \
+                and isinstance(node.value, ast.List):
+            for e in node.value.elts:
+                appended.append((e, node.lineno))
+        if isinstance(node, ast.Expr) and isinstance(node.value, ast.Call) and isinstance(node.value.func, ast.Attribute) \
+                and node.value.func.attr == 'append' and isinstance(node.value.func.value, ast.Name) \
+                and node.value.func.value.id == 'key':
+            appended.append((node.value.args[0], node.lineno))
+    key_deps = set()
+    for e, _ in appended:
+        key_deps |= deps(e)
+    # --- the miss branch
+    miss_calls = [n for n in ast.walk(f.node) if isinstance(n, ast.Call) and isinstance(n.func, ast.Name)
+                  and n.func.id in ('compile_dict', 'parse_files')]
+    used = set()
+    for c in miss_calls:
+        for a in list(c.args) + [k.value for k in c.keywords]:
+            if isinstance(a, ast.Name) and a.id in params:
+                used.add(a.id)
+            elif not (isinstance(a, ast.Call)):
+                for n in ast.walk(a):
+                    if isinstance(n, ast.Name) and n.id in params:
+                        used.add(n.id)
+    if not miss_calls:
+        ob('miss-branch', False, 'no compile_dict(parse_files(..)) call found')
+    for p in sorted(used):
+        ob('key-covers(%s)' % p, p in key_deps, 'parameter %s is used to compile but does not flow into the cache key' % p)
+    # --- raw contents
+    raw_ok = False
+    for e, _ in appended:
+        src = e
+        if isinstance(e, ast.Name) and e.id in read_names:
+            src = read_names[e.id]
+        if isinstance(src, ast.Call) and isinstance(src.func, ast.Attribute) and src.func.attr == 'read' \
+                and isinstance(src.func.value, ast.Name) and src.func.value.id in file_handles and not src.args:
+            fn_expr, mode = file_handles[src.func.value.id]
+            raw_ok = (mode == 'rb')
+    ob('raw-contents', raw_ok, "the key does not contain the untransformed bytes of each file (fin.read() of open(filename, 'rb'))")
+    # --- injective framing
+    framing_ok = True
+    why = ''
+    for i, (e, ln) in enumerate(appended):
+        if i == 0:
+            continue               # codec name: prefix-free set, checked below
+        if isinstance(e, ast.Constant):
+            continue
+        txt = ast.unparse(e)
+        is_len_prefix = 'len(' in txt and (txt.rstrip().endswith("b':'") or "+ b':'" in txt)
+        if is_len_prefix:
+            continue
+        prev = ast.unparse(appended[i - 1][0]) if i > 0 else ''
+        if not ('len(%s)' % txt in prev and "b':'" in prev):
+            framing_ok = False
+            why = 'key part `%s` (line %d) is not preceded by its length' % (txt[:60], ln)
+    ob('injective-framing', framing_ok and len(appended) >= 3, why or 'too few key parts')
+    # codec names prefix-free: read the dispatch table of compile_dict
+    codecs = []
+    cd = m.functions.get('compile_dict')
+    for n in ast.walk(cd.node) if cd else []:
+        if isinstance(n, ast.Dict):
+            ks = [k.value for k in n.keys if isinstance(k, ast.Constant) and isinstance(k.value, str)]
+            if len(ks) >= 4:
+                codecs = ks
+    pf = bool(codecs) and not any(a != b and b.startswith(a) for a in codecs for b in codecs)
+    ob('codec-names-prefix-free', pf, 'codec table %r is not prefix free / not found' % (codecs,))
+    # --- same arguments
+    ok_same = True
+    why = ''
+    for p, vals in reassigned.items():
+        for v in vals:
+            if not (isinstance(v, ast.List) and len(v.elts) == 1 and isinstance(v.elts[0], ast.Name) and v.elts[0].id == p):
+                ok_same = False
+                why = 'parameter %s is rewritten (%s) between computing the key and compiling' % (p, ast.unparse(v)[:60])
+    # in compile_files: the cached call receives the parameters themselves and none is reassigned
+    gparams = [a.arg for a in g.node.args.args]
+    for n in ast.walk(g.node):
+        if isinstance(n, ast.Assign):
+            for t in n.targets:
+                if isinstance(t, ast.Name) and t.id in gparams:
+                    ok_same = False
+                    why = 'compile_files rewrites its parameter %s before compiling (cached and uncached paths differ)' % t.id
+        if isinstance(n, ast.Call) and isinstance(n.func, ast.Name) and n.func.id == '_compile_files_cache':
+            for a in n.args:
+                if not (isinstance(a, ast.Name) and a.id in gparams):
+                    ok_same = False
+                    why = 'compile_files passes a transformed argument to the cached path: %s' % ast.unparse(a)[:60]
+    ob('same-arguments', ok_same, why)
+    viol = []
+    for name, ok, why in obligations:
+        if not ok:
+            viol.append({'obligation': 'asn1tools/compiler.py::_compile_files_cache/%s' % name,
+                         'function': 'asn1tools/compiler.py::_compile_files_cache', 'verdict': 'data-flow obligation failed',
+                         'solver_output': why, 'inputs': None})
+    return {'name': 'cache-key data-flow', 'obligations': len(obligations), 'discharged': sum(1 for o in obligations if o[1]),
+            'violations': viol, 'undecided': [] if len(obligations) >= 6 else [
+                {'function': 'asn1tools/compiler.py::_compile_files_cache', 'kind': 'vacuous', 'reason': 'too few obligations generated'}],
+            'functions': [{'function': f.ident, 'source_sha256': f.sha, 'paths': 1, 'obligations': len(obligations),
+                           'discharged': sum(1 for o in obligations if o[1]), 'outcomes': {}, 'seconds': 0.0, 'inlined_callees': []},
+                          {'function': g.ident, 'source_sha256': g.sha, 'paths': 1, 'obligations': 0, 'discharged': 0,
+                           'outcomes': {}, 'seconds': 0.0, 'inlined_callees': []}],
+            'coverage': {'obligations': [o[0] for o in obligations], 'codec_names': codecs}}
